@@ -8,12 +8,12 @@ PY = "/venv/bin/python"
 
 CHECKS = {
     "C01": dict(
-        technique="static analysis: coordinate-frame typestate (FRAME), unit inference (DIM), must-pass-through dataflow (FLOW), half-open window rule (WINDOW), weighted-mean term normal form over the AST of the locators",
+        technique="static analysis: coordinate-frame typestate (FRAME), unit inference (DIM), must-pass-through dataflow (FLOW), periodic-merge rule on resolved normal forms (MERGE), half-open window and padding/shift agreement (WINDOW, PADSHIFT), renderer rules (DIST, SHARP, METRIC, SUMCLIP), exact formula algebra (FORMULA)",
         text="Decides structural necessary conditions of the localisation property on every path of the four position pipelines: array-index -> cell -> grid frame discipline (the +0.5 offset), cell-volume factor of every located volume, wrap into the box (normalize_point) before droplet construction, volume-weighted merge across periodic boundaries in cell units, half-open periodic window on cylinders. It does not decide the count of droplets or the half-cell theorem itself.",
         note="Trusted: the contract table in DESIGN.md §2.4 (scipy.ndimage.center_of_mass returns array-index positions; GridBase.transform/normalize_point frames; grid.discretization units). Decides the named clauses, not the numerical behaviour.",
         ref="DESIGN.md §5 C01"),
     "C03": dict(
-        technique="static analysis: sibling agreement of the three renderers on normal forms (SIBLING), monotonicity/range abstract evaluation of the profile (MONO), affine form of the vmin/vmax map (AFFINE), sum-then-clip dataflow (FLOW), angle-arity agreement (ARITY), zero-distance division guard (DIV0), angle-convention inverse pairing",
+        technique="static analysis: renderer template in exact normal form (DIMGUARD, DIST, SHARP, SMOOTH, WIDTH, CAST), sibling agreement (SIBLING), periodic metric / angle convention / zero-distance division in polar_coordinates (METRIC, ANGLES, DIV0), angle-arity agreement (ARITY), own-amplitude guard rule (GUARD), first-order basis of the interface distance (COEFF), affine level map (AFFINE), sum-then-clip dataflow (SUMCLIP)",
         text="Decides that the three _get_phase_field implementations use one profile template (strict <, tanh profile monotone in distance with range (0,1) and midpoint at the interface), the periodic-aware difference vector, that angles returned per dimension are accepted by every perturbed class, that the 3-D angle computation guards the zero distance, that get_phase_field is vmin+(vmax-vmin)*u and that the emulsion field is the in-place clipped sum over all members.",
         note="Trusted: GridBase.difference_vector is the periodic metric; numpy tanh/clip semantics. Translation equivariance and float-sum order independence are not decided.",
         ref="DESIGN.md §5 C03"),
@@ -38,12 +38,12 @@ CHECKS = {
         note="Trusted: h5py/NumPy store structured arrays bit-exactly; key width 6 gives order agreement up to 10^6 members.",
         ref="DESIGN.md §5 C08"),
     "C09": dict(
-        technique="static analysis: may-be-empty typestate to empty-intolerant sinks (EMPTY), arity agreement (ARITY), zero-distance division guard (DIV0), dispatch exhaustiveness (EXHAUST), packed-parameter feasibility (PACK)",
+        technique="static analysis: may-be-empty typestate to empty-intolerant sinks (EMPTY), arity agreement (ARITY), zero-distance division (DIV0), documented-error guards (DIMGUARD), dispatch exhaustiveness over branch tables (EXHAUST), feasibility of the packed start vector in exact linear forms (FEASIBLE), containment of the internal spanning-droplet signal (SIGNAL)",
         text="Decides crash-freedom necessary conditions for the input classes the property names: empty frames/selections are guarded before cdist/center_of_mass/transform, every ndimage.label caller returns an empty emulsion on zero labels, rendering passes each perturbed class as many angles as it accepts, the 3-D angle computation cannot divide 0/0, the grid-family and threshold dispatches are exhaustive with the documented errors, and the fit's start vector is feasible by construction.",
         note="Absence of all exceptions and finiteness of fitted values are not decided.",
         ref="DESIGN.md §5 C09"),
     "C10": dict(
-        technique="static analysis: pop-only effect (EFFECT), lock-step list/matrix mutation (PAIR), comparison polarity at decisions (GUARDSHAPE), symmetric construction, metric propagation (METRIC), unit homogeneity (DIM)",
+        technique="static analysis: pop-only effect (EFFECT), lock-step list/matrix mutation (PAIR), path-sensitive tie-break and closeness guards (GUARDSHAPE), metric selection (METRIC), symmetric construction and exact surface-distance normal form (SYMM, SURFACE), strict overlap predicate (STRICT), nearest-neighbour and random-placement shape rules (NEIGHBOR, RANDOM)",
         text="Decides that remove_overlapping mutates the emulsion only by pop (survivors are original objects in order), pops index k together with deleting row and column k of the distance matrix in every branch, removes the smaller-or-equal droplet of the closest pair under a strict < min_distance test with the diagonal neutralised, leaves only via the not-closer exit; that the distance matrix is built symmetric with zero diagonal from the (periodic) metric minus both radii; that overlaps is the strict negative-surface-distance predicate; nearest-neighbour distances take the second KD-tree hit and subtract both radii.",
         note="Trusted: numpy.delete/argmin/unravel_index semantics, KD-tree query contract, Generator.uniform range.",
         ref="DESIGN.md §5 C10"),
@@ -53,12 +53,12 @@ CHECKS = {
         note="Trusted: IEEE + and * commute; numba register_jitable preserves semantics. Floating-point associativity across many merges is not decided.",
         ref="DESIGN.md §5 C11"),
     "C12": dict(
-        technique="static analysis: exact monomial algebra over extracted return expressions (FORMULA) with complete (variant x dimension) enumeration; wiring rules on droplet properties",
+        technique="static analysis: exact monomial algebra over extracted return expressions (FORMULA) with complete (variant x dimension) enumeration, generic per-dimension evaluation with sibling inlining, no-division-by-argument rule (ZERO), identities (FORMULA-ID), wiring rules on droplet properties (WIRING)",
         text="Every return expression of every variant of each sphere conversion (plain, dimension-specialised factory, dimension-generic factory, numba overload lambdas, py-pde's function) is evaluated per dimension into an exact monomial over the reals; variants must be equal, compositions must be the identity, dV/dr must equal the surface, and the droplet properties must call the matching converter with (radius, dim). Exhaustive over the finite table; exact for every positive real.",
         note="Exact arithmetic over the reals; last-bit floating-point agreement and NumPy scalar/array dispatch are not decided.",
         ref="DESIGN.md §5 C12"),
     "C13": dict(
-        technique="static analysis: accumulation discipline over amplitude loops (ACCUM), unit inference (DIM), symbolic derivative pairing (DERIV), interface completeness across sibling classes (COMPLETE), coefficient agreement between siblings (SIBLING), mode-origin agreement",
+        technique="static analysis: dual-number first-order expansion over exact normal forms (COEFF), accumulation and index-origin rules over amplitude loops (ACCUM, ORIGIN, GUARD, PAIRS), unit inference (DIM), may-be-scalar shape analysis (SHAPE), interface completeness (COMPLETE), unit-vector convention (UNITVEC), symbolic derivative pairing (DERIV), closed-form algebra (FORMULA), quadrature limits (INTEGRAL), overridable-vertex rule (TRIANG)",
         text="Decides that every mode contributes to distance, curvature, surface and volume series (cumulative updates only), that curvature/volume/area expressions are dimensionally homogeneous for any radius, that the derivative series in the 2D surface area is term-by-term the φ-derivative of the distance series, that mode indices start at 1 consistently, that every perturbed class overrides the whole shape interface, that 3D and axisymmetric curvature coefficients agree, that the 3D volume integrates over the full sphere, and that pair iteration yields every amplitude.",
         note="That the closed forms equal the integrals numerically is not decided.",
         ref="DESIGN.md §5 C13"),
@@ -73,17 +73,17 @@ CHECKS = {
         note="Trusted: concurrent.futures.Executor.map ordering contract; pickling round trip is bit-exact.",
         ref="DESIGN.md §5 C15"),
     "C16": dict(
-        technique="static analysis: unit inference with amplitude and cell-count dimensions (DIM), axis-index agreement (INDEXAGREE), dataflow of requested wave numbers and the zero mode (FLOW)",
+        technique="static analysis: unit inference with length/amplitude/cell-count dimensions and coordinate-vs-length typing (DIM, AFFINE), raw-data and orthonormal-transform rule (RAWDATA), per-axis index agreement (INDEXAGREE), pass-through of requested wave numbers (PASS), path-sensitive zero-mode rule (ADDZERO)",
         text="Decides homogeneity degree 0 of the structure factor in field amplitude and cell count (orthonormal FFT, squared modulus, division by the squared norm), wave numbers with unit 1/length built from matching shape/spacing indices over all axes, identical [1:] truncation of spectrum and wave numbers, requested wave numbers returned unchanged, (0, 1) prepended consistently, smoothing width and k_min in wave-number units.",
         note="Trusted: numpy.fft.fftfreq(n, d) has unit 1/d; fftn(norm='ortho') scales amplitude by count^(1/2). FFT theorems (Parseval, symmetries) are not decided.",
         ref="DESIGN.md §5 C16"),
     "C17": dict(
-        technique="static analysis: unit inference (DIM) along every path to the returned length scale on all three method branches",
+        technique="static analysis: unit inference (DIM) with coordinate-vs-length typing (AFFINE) along every path to the returned length scale on all three method branches, per-axis wave-vector agreement (INDEXAGREE), dispatch exhaustiveness (EXHAUST), box-volume and peak-search shape rules (VOLUME, PEAK)",
         text="A dimensionally homogeneous computation is covariant under a change of units: the check decides that every operation on the path to the result is homogeneous and that the result has degree (length^1, amplitude^0, count^0) under the API contracts, for all three methods.",
         note="Trusted: SmoothData1D sigma is in units of x; minimize_scalar returns x in bracket units. Half-bin accuracy of the peak method is not decided.",
         ref="DESIGN.md §5 C17"),
     "C18": dict(
-        technique="static analysis: backward slice of the unrefined result (SLICE), threshold-rule table against resolved reducers (THRESH), affine point typing (AFFINE), dispatch exhaustiveness (EXHAUST), comparison polarity (GUARDSHAPE), slice alignment in Otsu (INDEXAGREE), safe removal loop shape",
+        technique="static analysis: backward-slice rule (SLICE), exact normal forms of the threshold rules (THRESH), dispatch exhaustiveness (EXHAUST), strict mask comparison (GUARDSHAPE), filter placement on the CFG (FILTER), removal-loop shape (REMOVE), orientation/cut abstract interpretation of the Otsu method (ORIENT)",
         text="Decides that the unrefined result depends on field values only through the threshold and one strict > comparison, that each documented rule computes its documented reducer of phase_field.data (extrema midpoint, mean, Otsu bin centre with 256 bins and aligned class arrays), that the size filter removes iff radius <= minimal radius by a removal loop that cannot skip elements, before and after refinement with the same argument.",
         note="Invariance of the arg-max index under affine maps in floating point is not decided.",
         ref="DESIGN.md §5 C18"),
@@ -93,7 +93,7 @@ CHECKS = {
         note="Supported subset of Python in the fragment: if/elif/else, comparisons with constants, isinstance on the grid, class-name assignment, dict stores; anything else is reported as analysis error, not a verdict.",
         ref="DESIGN.md §5 C19"),
     "C20": dict(
-        technique="static analysis: who-may-store ownership rule and copy-on-insert (OWN), fresh derivations, lock-step parallel lists (PAIR), effect summaries (EFFECT), rejection-guard polarity, one-shot iterable consumption",
+        technique="static analysis: who-may-store ownership rule and path-sensitive copy-on-insert (OWN), fresh derivations through constructors (FRESH), lock-step parallel lists incl. default-time cases (PAIR), rejection guards dominating the store (REJECT), removal-loop shape (REMOVE), identity tests of optional values (NONETEST), linked-data binding (LINK)",
         text="Decides that the only primitive stores into the backing lists are the three owner methods, that on the default path the stored value is a fresh copy for every argument type, that copies/slices/sums are built through constructors with re-listed times, that times/members are mutated in lock-step on every path of every method, that constructors own their lists, and that the consistency and dimension guards raise.",
         note="The statistics clause (summary queries equal their definitions) is not decided.",
         ref="DESIGN.md §5 C20"),
